@@ -96,6 +96,7 @@ type Conn struct {
 	WroteN  int64
 	ReadN   int64
 	OnClose func()
+	Accepted bool // set when a Listener's Accept returned this connection
 }
 
 // Pair returns two connected endpoints. a's RemoteAddr is bAddr and vice versa.
@@ -411,6 +412,7 @@ type Listener struct {
 	Closes   int
 	addr     net.Addr
 	AcceptErr error // returned once by the next Accept if set
+	accepted  int
 }
 
 func NewListener() *Listener {
@@ -432,10 +434,32 @@ func (l *Listener) Accept() (net.Conn, error) {
 	}
 	select {
 	case c := <-l.ch:
+		l.mu.Lock()
+		l.accepted++
+		if mc, ok := c.(*Conn); ok {
+			mc.mu.Lock()
+			mc.Accepted = true
+			mc.mu.Unlock()
+		}
+		l.mu.Unlock()
 		return c, nil
 	case <-l.closedCh:
 		return nil, &net.OpError{Op: "accept", Net: "mem", Addr: l.addr, Err: net.ErrClosed}
 	}
+}
+
+// NumAccepted is the number of connections Accept has returned.
+func (l *Listener) NumAccepted() int {
+	l.mu.Lock()
+	defer l.mu.Unlock()
+	return l.accepted
+}
+
+// WasAccepted reports whether a listener's Accept returned this (server-side) connection.
+func (c *Conn) WasAccepted() bool {
+	c.mu.Lock()
+	defer c.mu.Unlock()
+	return c.Accepted
 }
 
 func (l *Listener) Close() error {
